@@ -458,6 +458,40 @@ fn replay_chunk(cases: &[Value], rep: &mut Report) {
       rep.nontrivial(format!("state:{}", d0));
       continue;
     }
+    if kind == "load" {
+      // the gate: accepted only if valid, by deserialisation and by the builder alike, under three relationship mappings
+      let valid = b(&case["valid"]);
+      for k in 0..3 {
+        let map = &maps[(ci * 3 + k) % maps.len()];
+        rep.eval();
+        let out = guarded(|| (build_from_json(d0, map), build_with_builder(d0, map)));
+        match out {
+          Err(p) => rep.mismatch("document/load/panic", case, json!("no panic"), json!(p), "panic"),
+          Ok((a, bld)) => {
+            for (how, r) in [("from_json", &a), ("builder", &bld)] {
+              match (r, valid) {
+                (Ok(doc), false) => rep.mismatch(
+                  &format!("document/load/invalid_document_accepted/{how}"),
+                  &json!({"doc": d0, "rel_map": map}),
+                  json!("refused: duplicate method id, reference aliasing an embedded method, or service id equal to a method id"),
+                  json!(id_constraints(doc).unwrap_or_else(|| "accepted".into())),
+                  "",
+                ),
+                (Err(e), true) => rep.mismatch(&format!("document/load/valid_document_refused/{how}"), &json!({"doc": d0, "rel_map": map}), json!("accepted"), json!(e), ""),
+                (Ok(doc), true) => {
+                  if project(doc, map) != *d0 {
+                    rep.mismatch("document/load/projection", &json!({"doc": d0}), d0.clone(), project(doc, map), "");
+                  }
+                }
+                (Err(_), false) => {}
+              }
+            }
+          }
+        }
+      }
+      rep.nontrivial(format!("load:{}", d0));
+      continue;
+    }
     if kind != "step" {
       continue;
     }
